@@ -8,13 +8,13 @@ case "$line" in
   *"build=0 suite=0 demo_without=0 demo_with=1"*) ;;
   *) if [ -z "$SEED_FORCE" ]; then echo "  not confirmed, not kept"; exit 1; fi ;;
 esac
-d=/verif/seeded/$prop-$k; mkdir -p $d
+id=$((k+${SEED_OFFSET:-0})); d=/verif/seeded/$prop-$id; mkdir -p $d
 cp $out/change$k.diff $d/patch.diff
 cp $out/demo${k}_test.go.txt $d/demo_test.go.txt
 caught=$(echo "$line" | sed 's/.*caught_by=\[\(.*\)\]/\1/')
-python3 - "$prop" "$k" "$out" "$line" "$caught" "$d" <<'P'
+python3 - "$prop" "$k" "$out" "$line" "$caught" "$d" "$id" <<'P'
 import sys,json,re
-prop,k,out,line,caught,d=sys.argv[1:7]
+prop,k,out,line,caught,d,sid=sys.argv[1:8]
 notes=open(out+'/NOTES.md').read() if True else ''
 # pick the section of NOTES.md about this change
 secs=re.split(r'\n(?=#+ .*[Cc]hange *%s|\n## *%s\b|\n### *%s\b)'%(k,k,k),notes)
@@ -23,7 +23,7 @@ m=re.search(r'(?ims)^(#+[^\n]*change\s*%s.*?)(?=^#+[^\n]*change\s*[0-9]|\Z)'%k,n
 if m: sec=m.group(1)
 meta={
  "property":prop,
- "seed":f"{prop}-{k}",
+ "seed":f"{prop}-{sid}",
  "author":"independent sub-agent given only the property text and a scratch worktree",
  "needs_to_manifest":sec.strip()[:1800],
  "confirmed":{"command":f"/verif/tools/seedeval.sh {prop} <dir> {k}","result":line,
